@@ -117,6 +117,24 @@ func body(h history) (func(), *stack.Config) {
 				rt.Sleep(time.Duration(h[0].InitMs) * time.Millisecond)
 			}
 			for {
+				// the process dies while the event of a "crash-delivery" step is being sent to it
+				up, seenUp := -1, 0
+				for i, st := range h {
+					if st.Ctx == "invalid" {
+						continue
+					}
+					if seenUp == delivered {
+						up = i
+						break
+					}
+					seenUp++
+				}
+				if up >= 0 && h[up].Kind == "crash-delivery" {
+					rt.FailWriteAfter = 1000
+					rt.Next()
+					delivered++
+					rt.Exit(1)
+				}
 				n := rt.Next()
 				if n.Status != 200 {
 					rt.Stall()
@@ -226,8 +244,12 @@ func judge(h history) sched.Judge {
 			if len(want) > limit {
 				want = want[:limit]
 			}
-			// (1) byte-exact event
-			if !bytes.Equal(n.Body, want) {
+			// (1) byte-exact event (a delivery that broke off shows a prefix)
+			if s.Kind == "crash-delivery" {
+				if len(n.Body) > len(want) || !bytes.Equal(n.Body, want[:len(n.Body)]) {
+					failf("1", "event-bytes:"+s.Event, "invocation %d: the part of the event sent before the connection broke is not a prefix of the event", i)
+				}
+			} else if !bytes.Equal(n.Body, want) {
 				failf("1", "event-bytes:"+s.Event, "invocation %d: runtime received %d bytes, caller posted %d bytes (first difference at %d)", i, len(n.Body), len(want), firstDiff(n.Body, want))
 			}
 			// (2) fresh request id
@@ -287,7 +309,7 @@ func judge(h history) sched.Judge {
 					failf("7", "timeout-outcome", "invocation %d (runtime stalls): caller got status %d body %q", i, inv.Status, trunc(inv.Body))
 				}
 				outs = append(outs, "timeout")
-			case "crash":
+			case "crash", "crash-delivery":
 				if inv.Status != 502 {
 					failf("7", "crash-outcome", "invocation %d (runtime exits): caller got status %d body %q", i, inv.Status, trunc(inv.Body))
 				}
@@ -348,7 +370,9 @@ func init() {
 		firsts = append(firsts, step{"timeout", "64k", "a", "absent", 0}, step{"crash", "limit", "a", "json", 0}, step{"oversize-response", "a", "limit+1", "absent", 0},
 			step{"ok", "a", "a", "invalid", 0}, step{"timeout", "limit", "a", "binary", 0}, step{"crash", "empty", "a", "absent", 0},
 			// invocations that arrive while the environment initialises (deadline = arrival + timeout all the same)
-			step{"ok", "a", "a", "absent", 800}, step{"fnerror", "64k", "a", "json", 800}, step{"crash", "a", "a", "binary", 800})
+			step{"ok", "a", "a", "absent", 800}, step{"fnerror", "64k", "a", "json", 800}, step{"crash", "a", "a", "binary", 800},
+			// the runtime dies while a large event is being sent to it
+			step{"crash-delivery", "limit", "a", "absent", 0}, step{"crash-delivery", "64k", "a", "json", 0})
 		var out []hx.Scenario
 		for _, f := range firsts {
 			f := f
